@@ -27,6 +27,7 @@ type Options struct {
 	TargetPackage        string
 	Sort                 int // 0 random, 1 on, 2 off
 	NoOptions            bool
+	MapOfBytes           bool // F12: map<string, bytes> does not compile
 	NoTimeType           bool // C18: leave time_type / duration_type unset
 	StructPkgName        string
 }
@@ -290,6 +291,9 @@ func (x *g) mapField(vals []msgInfo) desc.Field {
 		f.Type, f.TypeName = "enum", x.pick(x.enums)
 	default:
 		f.Type = desc.Scalars[x.r.Intn(len(desc.Scalars))]
+		for f.Type == "bytes" && !x.opt.MapOfBytes {
+			f.Type = desc.Scalars[x.r.Intn(len(desc.Scalars))]
+		}
 	}
 	x.decorate(&f)
 	return f
